@@ -4272,7 +4272,22 @@ namespace gch
 #endif
         }
 
-        uninitialized_move (begin_ptr (), end_ptr (), new_data_ptr);
+        GCH_TRY
+        {
+          // Strong exception guarantee.
+          uninitialized_move<strong_exception_policy> (begin_ptr (), end_ptr (), new_data_ptr);
+        }
+        GCH_CATCH (...)
+        {
+          // Give back the new allocation (the inline storage is not an allocation at run time).
+#ifdef GCH_LIB_IS_CONSTANT_EVALUATED
+          if (std::is_constant_evaluated () || InlineCapacity < new_capacity)
+#else
+          if (InlineCapacity < new_capacity)
+#endif
+            deallocate (new_data_ptr, new_capacity);
+          GCH_THROW;
+        }
 
         destroy_range (begin_ptr (), end_ptr ());
         deallocate (data_ptr (), get_capacity ());
